@@ -49,18 +49,34 @@ fn roundtrip(ctx: &mut Ctx, rp: &str, counter: Option<u32>, u: u8, acd: Option<(
     };
     let ga_ext = match ext_kind { 3 => Some(get_assertion::SignedExtensionOutputs { hmac_secret: Some(ctx.rng.bytes_in(32, 64).into()) }), _ => None };
     let ext_bytes: Option<Vec<u8>> = match ext_kind { 1 | 2 | 5 | 6 => Some(cbor_bytes(mc_ext.as_ref().unwrap())), 3 => Some(cbor_bytes(ga_ext.as_ref().unwrap())), _ => None };
-    let key = acd.as_ref().map(|_| CoseKeyBuilder::new_ec2_pub_key(iana::EllipticCurve::P_256, ctx.rng.bytes(32), ctx.rng.bytes(32)).algorithm(iana::Algorithm::ES256).build());
+    // the key shapes a caller can hand over: with and without an algorithm, compressed point, OKP, key id, symmetric
+    let key = acd.as_ref().map(|_| match ctx.rng.below(8) {
+        0 => CoseKeyBuilder::new_ec2_pub_key(iana::EllipticCurve::P_256, ctx.rng.bytes(32), ctx.rng.bytes(32)).build(),
+        1 => CoseKeyBuilder::new_ec2_pub_key_y_sign(iana::EllipticCurve::P_256, ctx.rng.bytes(32), ctx.rng.bool()).algorithm(iana::Algorithm::ES256).build(),
+        2 => CoseKeyBuilder::new_okp_key().algorithm(iana::Algorithm::EdDSA)
+            .param(iana::OkpKeyParameter::Crv as i64, ciborium::value::Value::from(iana::EllipticCurve::Ed25519 as u64))
+            .param(iana::OkpKeyParameter::X as i64, ciborium::value::Value::Bytes(ctx.rng.bytes(32))).build(),
+        3 => CoseKeyBuilder::new_ec2_pub_key(iana::EllipticCurve::P_384, ctx.rng.bytes(48), ctx.rng.bytes(48)).algorithm(iana::Algorithm::ES384).key_id(ctx.rng.bytes_in(0, 9)).build(),
+        4 => CoseKeyBuilder::new_symmetric_key(ctx.rng.bytes_in(0, 40)).build(),
+        _ => CoseKeyBuilder::new_ec2_pub_key(iana::EllipticCurve::P_256, ctx.rng.bytes(32), ctx.rng.bytes(32)).algorithm(iana::Algorithm::ES256).build(),
+    });
+    // the setters in any order give the same value
+    let order = ctx.rng.below(3);
     let key_bytes = key.clone().map(|k| k.to_vec().unwrap());
     let acd_s = match (&acd, &key_bytes) { (Some((ag, cid)), Some(kb)) => format!("{}:{}:{}", hexf(ag), hexf(cid), hexf(kb)), _ => "NONE".into() };
     let op = format!("ad.rt {} {} {} {} {}", hexf(rp.as_bytes()), counter.map(|c| c.to_string()).unwrap_or("NONE".into()), names_of(flags_of(u)), acd_s, ext_bytes.as_ref().map(|b| hexf(b)).unwrap_or("NONE".into()));
     let mut enc_out = None;
     let obs = guarded(|| {
-        let mut a = AuthenticatorData::new(rp, counter).set_flags(flags_of(u));
+        let (mut ga, mut mc) = (ga_ext, mc_ext);
+        let mut a = AuthenticatorData::new(rp, counter);
+        if order == 0 { a = a.set_flags(flags_of(u)); }
+        if order == 1 { a = if ext_kind == 3 { a.set_assertion_extensions(ga.take()).unwrap() } else { a.set_make_credential_extensions(mc.take()).unwrap() }; }
         if let (Some((ag, cid)), Some(k)) = (acd.clone(), key.clone()) {
             let mut g = [0u8; 16]; g.copy_from_slice(&ag);
             match AttestedCredentialData::new(Aaguid(g), cid, k) { Ok(c) => { a = a.set_attested_credential_data(c); } Err(_) => return ("iderr".to_string(), None) }
         }
-        let a = if ext_kind == 3 { a.set_assertion_extensions(ga_ext).unwrap() } else { a.set_make_credential_extensions(mc_ext).unwrap() };
+        if order != 1 { a = if ext_kind == 3 { a.set_assertion_extensions(ga.take()).unwrap() } else { a.set_make_credential_extensions(mc.take()).unwrap() }; }
+        if order != 0 { a = a.set_flags(flags_of(u)); }
         let enc = a.to_vec();
         (format!("enc={} dec={}", hexf(&enc), dec_obs(&enc)), Some(enc))
     });
